@@ -221,7 +221,7 @@ def check(pid, tier, repo, seed, scale, clauses, jobs, keep=False):
     procs = []
     for k in range(nshards):
         cmd = [binary, '--run', clauses or 'all', '--seed', str(seed), '--tier', tier, '--scale', str(scale), '--shard', str(k), '--nshards', str(nshards),
-               '--out', os.path.join(rundir, 'stats%d.json' % k), '--fail-dir', rundir, '--cur', os.path.join(rundir, 'cur%d.bin' % k)]
+               '--max-size', ('200' if tier == 'thorough' else '100'), '--out', os.path.join(rundir, 'stats%d.json' % k), '--fail-dir', rundir, '--cur', os.path.join(rundir, 'cur%d.bin' % k)]
         procs.append((k, subprocess.Popen(cmd, env=env, stdout=open(os.path.join(rundir, 'out%d.txt' % k), 'w'), stderr=subprocess.STDOUT)))
     shard_rc = {}
     for k, p in procs:
